@@ -306,14 +306,14 @@ Proof.
       * mk. unfold wview, wcore; nrm. split; auto. right. split; auto. lia.
       * mk. { unfold wview, wcore; nrm. now rewrite EW. } apply histP_drop. exact HI.
     + apply Forall_cons_iff in SCR as [H1 H2]. mk. unfold wview, wcore; nrm. split; auto. unfold enc_len.
-      destruct (zlen m <=? MM) eqn:EM; [right; split; auto; lia | left; auto].
+      destruct (zlen m <=? MM) eqn:EM; [right; split; auto; lia | left; split; auto; lia].
   - (* WSizeW *) mk. unfold wview, wcore; nrm. auto.
   - (* WSizeR *)
     destruct WV as [WL ->]. rewrite IW, IR.
     rewrite free_eq by lia.
     destruct (len <=? N - 1 - (Wv s - Rv s)) eqn:EF.
     + mk. unfold wview, wcore; nrm. split; auto. split; [|nrm; lia].
-      destruct WL as [[_ P] [->|[-> _]]]; lia.
+      destruct WL as [[_ P] [[-> _]|[-> _]]]; lia.
     + mk. { unfold wview, wcore; nrm. auto. } apply histP_drop. exact HI.
   - (* WNextW *)
     destruct WV as [WL F]. mk. unfold wview, wcore; nrm. fin.
@@ -370,7 +370,7 @@ Proof.
   - (* WPublish *)
     destruct WV as ((WL & [F0 F] & ->) & CP).
     destruct (0 <? len) eqn:EL.
-    + destruct WL as [[WF P] [->|[-> LM]]]; [lia|].
+    + destruct WL as [[WF P] [[-> _]|[-> LM]]]; [lia|].
       assert (WV' : pos (acc s ++ [m]) (length (acc s ++ [m])) = Wv s + zlen m).
       { rewrite app_length; simpl. rewrite Nat.add_1_r. apply pos_app_last. }
       mk; cbn.
@@ -831,6 +831,70 @@ Definition script_ok (wf : msg -> Prop) (ws : list wop) : Prop :=
 Definition reach (N MM : Z) (frame : list byte -> Z) (ws : list wop) (rs : list rop) (sched : list tid) : state :=
   run N MM frame (init N ws rs) sched.
 
+Lemma app_self_nil : forall (l : list obs) x, l = l ++ [x] -> False.
+Proof. intros l x H. apply (f_equal (@length obs)) in H. rewrite app_length in H. simpl in H. lia. Qed.
+
+(* a message is dropped only for one of the two reasons the property names:
+   it is longer than MaxMsg, or it does not fit into the free space at the
+   moment the writer loads read *)
+Lemma drop_reason : forall N MM wf, 0 < N -> forall s m, Inv N MM wf s ->
+  out (wstep N MM s) = out s ++ [ODrop m] ->
+  MM < zlen m \/ N - 1 - (Wv s - Rv s) < zlen m.
+Proof.
+  intros N MM wf NP s m I H.
+  pose proof (i_wv _ _ _ _ I) as WV. pose proof (inv_R_le_W N MM wf s I) as RW.
+  pose proof (i_occ _ _ _ _ I) as OCC.
+  unfold RingInv.wview in WV. unfold wstep, wfetch in H.
+  destruct (wp s) eqn:EW.
+  - destruct (wscr s) as [|[m'|m'] tl]; simpl in H; try (apply app_self_nil in H; tauto).
+    destruct (zlen m' <=? MM) eqn:EM; simpl in H; try (apply app_self_nil in H; tauto).
+    apply app_inv_head in H. inversion H; subst. left. lia.
+  - simpl in H. apply app_self_nil in H; tauto.
+  - destruct WV as [WL ->]. rewrite (i_w _ _ _ _ I), (i_r _ _ _ _ I) in H.
+    rewrite free_eq in H by lia.
+    destruct (len <=? N - 1 - (Wv s - Rv s)) eqn:EF; simpl in H; [apply app_self_nil in H; tauto|].
+    apply app_inv_head in H. inversion H; subst.
+    destruct WL as [_ [[-> _]|[-> _]]]; [lia|right; lia].
+  - simpl in H. apply app_self_nil in H; tauto.
+  - destruct (nw <? iw s); simpl in H; apply app_self_nil in H; tauto.
+  - simpl in H. apply app_self_nil in H; tauto.
+  - simpl in H. apply app_self_nil in H; tauto.
+  - destruct (k <? w1); simpl in H; [unfold store in H; destruct (inb N (base + k)); simpl in H|];
+      apply app_self_nil in H; tauto.
+  - destruct (k <? len - w1); simpl in H; [unfold store in H; destruct (inb N k); simpl in H|];
+      apply app_self_nil in H; tauto.
+  - simpl in H. apply app_self_nil in H; tauto.
+  - destruct (k <? len); simpl in H; [unfold store in H; destruct (inb N (base + k)); simpl in H|];
+      apply app_self_nil in H; tauto.
+  - destruct WV as ((WL & _) & _). destruct (0 <? len) eqn:EL; simpl in H; apply app_inv_head in H; inversion H; subst.
+    destruct WL as [[_ P] [[_ ?]|[-> _]]]; [left; auto|lia].
+Qed.
+
+(* hasNext without a writer step in between is exact: it answers false exactly
+   when everything accepted so far has been consumed (looked at, for the
+   lookahead flavour) *)
+Lemma hasnext_exact : forall N MM frame wf, 0 < N -> frame_ok frame wf ->
+  forall s la try, Inv N MM wf s -> rp s = RHasW la try ->
+  let s2 := rstep N MM frame (rstep N MM frame s) in
+  out s2 = out s ++ [OHas la (j0 s la <? length (acc s))%nat (length (acc s)) (cons s) (peek s)].
+Proof.
+  intros N MM frame wf NP FR s la try I ER s2.
+  assert (I1 : Inv N MM wf (rstep N MM frame s)) by (apply (inv_step N MM frame wf NP FR s Rd I)).
+  assert (I2 : Inv N MM wf s2) by (apply (inv_step N MM frame wf NP FR _ Rd I1)).
+  pose proof (hasnext_lin N MM wf s2 I2) as H.
+  assert (E1 : rstep N MM frame s = set_rp (g_snap s) (RHasR la try (iw s)))
+    by (unfold rstep; rewrite ER; reflexivity).
+  subst s2. rewrite E1 in *.
+  set (s1 := set_rp (g_snap s) (RHasR la try (iw s))) in *.
+  assert (E2 : exists b, out (rstep N MM frame s1) = out s ++ [OHas la b (length (acc s)) (cons s) (peek s)]).
+  { unfold rstep. cbn [rp s1 set_rp].
+    match goal with |- context [push _ (OHas _ ?b _ _ _)] => exists b end.
+    destruct (try && _); reflexivity. }
+  destruct E2 as [b E2]. rewrite E2 in *.
+  apply Forall_app in H as [_ H]. inversion H as [|? ? HO _]; subst. simpl in HO.
+  rewrite HO. unfold j0. destruct la; rewrite ?Nat.add_0_r; reflexivity.
+Qed.
+
 Section Top.
 Variable N MM : Z.
 Variable frame : list byte -> Z.
@@ -883,6 +947,15 @@ Qed.
 
 Lemma top_drf : forall i, wfoot s = Some i -> rfoot N s i = false.
 Proof. intros i. apply (drf N MM wf N_pos s i reach_inv). Qed.
+
+Lemma top_drop_reason : forall m, out (wstep N MM s) = out s ++ [ODrop m] ->
+  MM < zlen m \/ N - 1 - (Wv s - Rv s) < zlen m.
+Proof. intros m. apply (drop_reason N MM wf N_pos s m reach_inv). Qed.
+
+Lemma top_hasnext_exact : forall la try, rp s = RHasW la try ->
+  out (rstep N MM frame (rstep N MM frame s)) =
+  out s ++ [OHas la (j0 s la <? length (acc s))%nat (length (acc s)) (cons s) (peek s)].
+Proof. intros la try. apply (hasnext_exact N MM frame wf N_pos FR s la try reach_inv). Qed.
 
 Lemma top_safe : err s = false.
 Proof. apply (safe N MM wf), reach_inv. Qed.
